@@ -26,8 +26,13 @@ def run(ctx):
     sqlprop.run_sql_property(ctx, corpus=['scan', 'agg', 'order', 'cjoins', 'distshapes'], seeded=[], cfgs=sqlprop.DIST, quick_n=110, thorough_n=1000,
         envs=None, cross=dist_cross,
         rule='Each corpus case is executed through execute_any_distributed with an in-process fragment transport (execute_fragment on a second context over the same Parquet files, Arrow IPC round trip) for clusters of 1,2,3,4,8 participants over several row-group layouts (idle nodes and empty shards arise); the answer must be allowed by SqlSem (order where ORDER BY fixes it) or a refusal.')
+    import distplan                    # X02 "DistPlan" sub-model (checks/distplan.py): the planner's strategy choice and its exactness
+    distplan.run_sub(ctx)
 
 def replay(ctx, obj):
+    if obj.get("case", {}).get("kind") == "distplan":
+        import distplan
+        return distplan.replay_sub(ctx, obj)
     sqlcheck.replay_sql(ctx, obj)
 
 def selftest(ctx):
@@ -37,4 +42,5 @@ def selftest(ctx):
         res = vlib.run_tlc("DistMerge", f"DistMerge_bad_{inv}.cfg", workers=4, timeout=1200)
         if res.violated != inv:
             print(f"selftest: expected {inv} to be violated, got {res.violated}"); bad += 1
-    return 1 if bad else sqlprop.selftest(ctx, [])
+    import distplan
+    return 1 if (bad or sqlprop.selftest(ctx, []) or distplan.selftest_sub(ctx)) else 0
